@@ -39,6 +39,7 @@ BOUNDS = {"quick": {"set_size": 2}, "thorough": {"set_size": 3}}
 CAP_S = {"quick": 170, "thorough": 2400}
 
 P_ORD = [["p", 0]]
+P_CFI = [["push"], ["cfi", ".cfi_adjust_cfa_offset", [8]], ["p", 0], ["pop"], ["cfi", ".cfi_adjust_cfa_offset", [-8]]]
 PATCH_KINDS = {
     "ord": [["p", 0]],
     "lab": [["lab", ".Lx"], ["p", 0], ["jcc", ".Lx"]],
@@ -92,6 +93,12 @@ def shapes():
     Dd = scen.code_block("D", [40], ["call", "C"], f="h", e=True)
     E = scen.code_block("E", [50], ["ret"], f="h")
     out["callee2"] = scen.spec_of([A, B, Cc, C2, Dd, E])
+    # call-frame information: the rewriter decides once per apply(), in original coordinates, which offsets lie inside a
+    # CFI procedure; patches with directives of their own next to earlier insertions into the same block
+    from . import c08
+    import copy
+
+    out["cfi"] = copy.deepcopy(c08.MODULES["two-procs"])
     return out
 
 
@@ -116,7 +123,9 @@ def atoms_for(spec, rich):
     for s in spec["sections"]:
         for b in s["blocks"]:
             n = len(b["i"])
-            if b["k"] == "c":
+            if b["k"] == "c" and any(bb.get("cfi") for ss in spec["sections"] for bb in ss["blocks"]):
+                pl = [PATCH_KINDS["ord"], P_CFI]
+            elif b["k"] == "c":
                 pl = usable if rich else [PATCH_KINDS["ord"]]
             else:
                 pl = [{"bytes": [0]}]
